@@ -44,3 +44,5 @@ mod blayout;
 mod c06cfg;
 #[cfg(all(kani, verif_native))]
 mod smtreplay;
+#[cfg(all(kani, verif_native))]
+mod hangwit;
